@@ -23,6 +23,16 @@ import (
 // option set (a pure function of seed and idx, identical in every process).
 func c09Source(seed, idx uint64) (src string, optName string, opts func(sample *envs.Env, opSample *OpEnv) []expr.Option, useOpEnv bool) {
 	r := runner.NewRng(seed, 909, idx)
+	if idx%11 == 10 {
+		// the environment type in value and in pointer form (methods with a
+		// pointer receiver exist for the pointer form only): what one form
+		// compiles to must not depend on which form was compiled before
+		src = r.Pick([]string{"PInc(A)", "PInc(1) + Inc(2)", "AddA(PInc(B))", "Inc(A) + AddA(1)", "map(Ints, {PInc(#)})", "It.Double() + PInc(2)", "A + B", "Cat(S, T)"})
+		if r.Bool() {
+			return src, "Env(*Env)", func(s *envs.Env, _ *OpEnv) []expr.Option { return []expr.Option{expr.Env(s)} }, false
+		}
+		return src, "Env(Env)", func(s *envs.Env, _ *OpEnv) []expr.Option { return []expr.Option{expr.Env(*s)} }, false
+	}
 	switch idx % 5 {
 	case 0, 1:
 		g := term.NewGen(r, idx%2 == 0)
@@ -80,6 +90,10 @@ func init() {
 				}
 				return 2500
 			}, Run: func(c *runner.Ctx, idx uint64) {
+				// every process compiles the whole list, each in its own order
+				// (rotation inside blocks of 50), so that a result depending on
+				// what the process compiled before shows as a digest mismatch
+				idx = idx - idx%50 + (idx%50+uint64(c.Shard)*7)%50
 				src, optName, mk, _ := c09Source(c.Seed, idx)
 				if c.Shard == 0 && idx < 64 {
 					c.Begin(src)
@@ -215,6 +229,9 @@ func c09Purity(c *runner.Ctx, idx uint64) {
 			envs.Fill(e1, style, runner.NewRng(seed))
 			envs.Fill(e2, style, runner.NewRng(seed))
 			env1, env2, snapTarget = *e1, *e2, e1
+			if optName == "Env(*Env)" {
+				env1, env2 = e1, e2
+			}
 		}
 		// the call log is harness state, not part of the environment
 		resetLog(snapTarget)
